@@ -191,7 +191,7 @@ PROPS = {
             "oracles": [{"name": "flavour-differential", "run": flavour_oracle_for("C02")}, {"name": "live-remove-full", "run": live_oracle("C02", ["remove_full", "async_remove_full", "invariants", "async_invariants", "async_clear_ack", "transparent_keys"])}],
             "assumptions": CACHE_ASSUME + ["values are opaque ids: the model carries a value id where the code carries a V; that the code hands back the V it stored under that id (no aliasing inside a shard's HashMap) is std's contract and is sampled by the correspondence (every returned value is compared)",
                                            "concurrent lookups during an in-place update are serialised by the shard lock; that atomicity (never a mixture of two values) is the RwLock's contract, not a theorem here"]},
-    "C04": {"module": "StrettoModel.Props.C04", "oracles": [{"name": "flavour-differential", "run": flavour_oracle_for("C04")}, {"name": "live-clear-ack", "run": live_oracle("C04", ["async_clear_ack", "transparent_keys"])}],
+    "C04": {"module": "StrettoModel.Props.C04", "oracles": [{"name": "flavour-differential", "run": flavour_oracle_for("C04")}, {"name": "live-clear-ack", "run": live_oracle("C04", ["async_clear_ack", "transparent_keys", "clear_after_removes"])}],
             "jobs": [acache_job(r"\.(store|expiry|policy|ret|callbacks|buffer|len)$", extra=["--w-ttl", "60"]), cache_job(r"\.(store|expiry|policy|ret|callbacks|buffer|len)$", extra=["--w-ttl", "50"])],
             "branches": ["padd.room", "padd.evicting", "padd.rejected", "insert.update", "insert.dropped", "remove.resident", "tick.reclaimed", "tick.idle"],
             "assumptions": CACHE_ASSUME + ["refines_ttl_map composes the per-operation squares over sequential histories (each operation taken to quiescence); for histories with several client calls in flight the composition is carried by the run-time no-loss monitor, which tracks capacity pressure (latest asked cost per charged key at quiescence, per-key peak while writes are in flight) and collisions from the implementation's own history",
@@ -256,7 +256,7 @@ PROPS = {
     },
     "C11": {
         "module": "StrettoModel.Props.C11",
-        "oracles": [{"name": "live-clear-burst", "run": live_oracle("C11", ["clear_burst", "async_clear_burst", "clear_held_ref", "async_clear_ack", "double_clear", "iip_race"])}, {"name": "flavour-differential", "run": flavour_oracle_for("C11")}],
+        "oracles": [{"name": "live-clear-burst", "run": live_oracle("C11", ["clear_burst", "async_clear_burst", "clear_held_ref", "async_clear_ack", "double_clear", "iip_race", "clear_after_removes"])}, {"name": "flavour-differential", "run": flavour_oracle_for("C11")}],
             "jobs": [acache_job(r"\.(store|expiry|policy|buffer|metrics|ret|callbacks|len|clear)$"), cache_job(r"\.(store|expiry|policy|buffer|metrics|ret|callbacks|len|clear)$", extra=["--w-clear", "8", "--w-ttl", "40"])],
         "branches": ["clear.blocked.buf0", "clear.blocked.buf1", "clear.blocked.buf2", "p.clear.buf0", "p.clear.buf1", "p.clear.buf2", "ret.clear"],
         "assumptions": CACHE_ASSUME,
